@@ -638,7 +638,7 @@ func genCtxLookup(c *Ctx, n int, gpos bool) *gtab.LookupTable {
 // and starts a new child.
 
 var dslWorkerOps = []string{"dsl.parse", "dsl.total", "dsl.roundtrip", "dsl.modelrt", "dsl.rtseed", "dsl.goroutines", "dsl.flags",
-	"dsl.rtrepeat", "dsl.parserepeat"}
+	"dsl.rtrepeat", "dsl.parserepeat", "dsl.meaning"}
 
 var dslImpl = map[string]opFn{}
 
@@ -810,4 +810,149 @@ func dslWorkerEnter() {
 		dslWorkerMain()
 		os.Exit(0)
 	}
+}
+
+// ---- the meaning of a chained context rule written in the notation ----
+//
+// The notation lists the backtrack sequence in logical (reading) order; the font stores it
+// closest-to-the-input first.  A round trip cannot see a parser and a printer that both forget
+// the reversal, so this stream judges the parsed structure against the TEXT: the case line
+// carries the entries in the order written (fields back, look), the text is put together here
+// (not by Explain), and the Lean side expects back reversed and look unchanged.
+
+func init() {
+	ops["dsl.meaning"] = func(f Fields) string {
+		return dslCanonPanic(guard(func() string {
+			ll, err := builder.Parse(dslFontOf(f), string(f.Hex("text")))
+			if err != nil {
+				return "parse-error:" + strings.Join(strings.Fields(err.Error()), " ")
+			}
+			if len(ll) == 0 || len(ll[0].Subtables) == 0 {
+				return "no-subtable"
+			}
+			gl := func(l []glyph.ID) string { return gidsStr(l, ",") }
+			switch st := ll[0].Subtables[0].(type) {
+			case *gtab.ChainedSeqContext1:
+				for _, rs := range st.Rules {
+					if len(rs) > 0 {
+						return "back=" + gl(rs[0].Backtrack) + ";look=" + gl(rs[0].Lookahead)
+					}
+				}
+			case *gtab.ChainedSeqContext2:
+				for _, rs := range st.Rules {
+					if len(rs) > 0 {
+						return "back=" + strings.ReplaceAll(u16Str(rs[0].Backtrack), ".", ",") + ";look=" +
+							strings.ReplaceAll(u16Str(rs[0].Lookahead), ".", ",")
+					}
+				}
+			case *gtab.ChainedSeqContext3:
+				return "back=" + showSets(st.Backtrack) + ";look=" + showSets(st.Lookahead)
+			}
+			return fmt.Sprintf("other-%T", ll[0].Subtables[0])
+		}))
+	}
+	dslWorkerEnter()
+}
+
+// genMeaning writes one chained rule with at least two different backtrack entries in each of the
+// three formats and asks what Parse makes of it.
+func genMeaning(c *Ctx) {
+	r := c.Rng
+	d := simpleFont
+	pickG := func() int { return r.Range(3, 28) }
+	spell := func(g int) string {
+		if r.Bool() {
+			return d.names[g]
+		}
+		return fmt.Sprint(g)
+	}
+	distinct := func(k int) []int {
+		seen := map[int]bool{}
+		var out []int
+		for len(out) < k {
+			g := pickG()
+			if !seen[g] {
+				seen[g] = true
+				out = append(out, g)
+			}
+		}
+		return out
+	}
+	kw := Pick(r, []string{"GSUB6", "GPOS8"})
+	flags := Pick(r, []string{"", "", " -marks", " -ligs -rtl"})
+	nb, nl := r.Range(2, 3), r.Range(0, 2)
+	format := r.Range(1, 3)
+	c.Stat("meaning.format", fmt.Sprint(format))
+	var text, back, look string
+	join := func(xs []string, sep string) string { return strings.Join(xs, sep) }
+	switch format {
+	case 1:
+		bs, ls, in := distinct(nb), distinct(nl), distinct(r.Range(1, 2))
+		var bt, lt, it, bf, lf []string
+		for _, g := range bs {
+			bt, bf = append(bt, spell(g)), append(bf, fmt.Sprint(g))
+		}
+		for _, g := range ls {
+			lt, lf = append(lt, spell(g)), append(lf, fmt.Sprint(g))
+		}
+		for _, g := range in {
+			it = append(it, spell(g))
+		}
+		text = kw + ":" + flags + " " + join(bt, " ") + " | " + join(it, " ") + " | " + join(lt, " ") + " -> 1@0"
+		back, look = join(bf, ","), join(lf, ",")
+	case 2:
+		// classes 1..nb for the backtrack, 1..max(nl,1) for the lookahead, one input class
+		gs := distinct(nb + nl + 2)
+		var defs, bt, lt, bf, lf []string
+		perm := make([]int, nb)
+		for i := range perm {
+			perm[i] = i
+		}
+		for i := nb - 1; i > 0; i-- {
+			j := r.Intn(i + 1)
+			perm[i], perm[j] = perm[j], perm[i]
+		}
+		for i := 0; i < nb; i++ {
+			defs = append(defs, fmt.Sprintf("backtrackclass :b%d: = [%s]", i+1, spell(gs[i])))
+		}
+		defs = append(defs, fmt.Sprintf("inputclass :i: = [%s]", spell(gs[nb])))
+		for i := 0; i < nl; i++ {
+			defs = append(defs, fmt.Sprintf("lookaheadclass :l%d: = [%s]", i+1, spell(gs[nb+1+i])))
+		}
+		for _, i := range perm { // the rule uses the backtrack classes in some order, each once
+			bt, bf = append(bt, fmt.Sprintf(":b%d:", i+1)), append(bf, fmt.Sprint(i+1))
+		}
+		for i := 0; i < nl; i++ {
+			lt, lf = append(lt, fmt.Sprintf(":l%d:", i+1)), append(lf, fmt.Sprint(i+1))
+		}
+		text = kw + ":" + flags + " " + join(defs, "\n\t") + "\n\t/" + spell(gs[nb]) + "/ " + join(bt, " ") + " | :i: | " + join(lt, " ") + " -> 0@0"
+		back, look = join(bf, ","), join(lf, ",")
+	default:
+		mkset := func() ([]int, string, string) {
+			g := distinct(r.Range(1, 2))
+			sort.Ints(g)
+			var t, f []string
+			for _, x := range g {
+				t, f = append(t, spell(x)), append(f, fmt.Sprint(x))
+			}
+			return g, "[" + join(t, " ") + "]", join(f, ".")
+		}
+		var bt, lt, bf, lf []string
+		seen := map[string]bool{}
+		for len(bt) < nb {
+			_, t, f := mkset()
+			if !seen[f] {
+				seen[f] = true
+				bt, bf = append(bt, t), append(bf, f)
+			}
+		}
+		for i := 0; i < nl; i++ {
+			_, t, f := mkset()
+			lt, lf = append(lt, t), append(lf, f)
+		}
+		_, it, _ := mkset()
+		text = kw + ":" + flags + " " + join(bt, " ") + " | " + it + " | " + join(lt, " ") + " -> 1@0 2@0"
+		back, look = join(bf, ","), join(lf, ",")
+	}
+	c.Case(Direct, "dsl.meaning", fmt.Sprintf("%s fmt=%d back=%s look=%s text=%s", d.args(), format, back, look, hx([]byte(text))), true)
 }
